@@ -277,6 +277,10 @@ impl Group for Isolation {
 /// routing per request on one keep-alive connection through a real server
 pub struct Conn;
 impl Group for Conn {
+    // a real server / real sockets with read timeouts: a failure counts if it shows again when the same case is re-run
+    fn timing_sensitive(&self) -> bool {
+        true
+    }
     fn name(&self) -> &'static str {
         "c15.conn"
     }
